@@ -18,6 +18,9 @@ file still compiles and the function's theorem no longer does — never a crash,
       is refused.
   glue (util.py `decay_matrix_implementation_*`) and irf.py `parameter` / `is_index_dependent` /
       `calculate_dispersion`: see the pattern translators further down (each documents its subset).
+  method level (second file Generated/C05Irf.lean, `render_irf`): `IrfMultiGaussian.parameter`, `calculate`,
+      `calculate_dispersion`, `util.index_dependent`, `util.calculate_matrix`, `util.retrieve_irf` — see the section
+      "method-level translation" at the end of this file.
 
 Doubles: every literal becomes the exact rational of the double (`float.as_integer_ratio`), array reads and
 scalar parameters are exact rationals embedded with `Num.ofRat`; `+ - * /`, unary minus, `exp`, `erf`, `erfcx`,
@@ -956,3 +959,950 @@ def source_sha1(repo: Path) -> dict:
         p = repo / f
         out[f] = hashlib.sha1(p.read_bytes()).hexdigest() if p.exists() else None
     return out
+
+
+# ==========================================================================================
+# method-level translation (second generated file, lean/GlotaranModel/Generated/C05Irf.lean — imported by the proofs of
+# C05 only): irf.py `IrfMultiGaussian.parameter`, `IrfMultiGaussian.calculate`, `IrfSpectralMultiGaussian.
+# calculate_dispersion`; util.py `index_dependent`, `calculate_matrix` (np.zeros, the two glue calls, the finiteness check,
+# the A-matrix product) and `retrieve_irf`.
+#
+# Subset: straight-line code with `if` / `raise` / `return` over values of the kinds
+#     rats (list / 1-D array of doubles or Parameters), rat (a double or a Parameter: `.value` is the identity), nat, bool,
+#     onat (`global_index`: an int or None), orats / orat (optional attributes), lit (a numeric literal), str (ignored)
+# into the exception monad `Except IrfError`:  an expression that may raise is bound with `bindE` in evaluation order
+# (`xs[i]` -> listGet, a numeric use of `global_index` -> needIndex, `.value` of an optional Parameter -> optValue), a `raise
+# ModelError(f"...")` first evaluates the interpolated expressions and then is `.error <class chosen by the message text>`, an
+# `if` that assigns names yields them as a tuple.  `x if isinstance(x, list) else [x]`, `np.asarray(x)`, `[p.value for p in x]`
+# are the identity (the model's item holds lists of numbers; a single centre is a list of one).  Pure assignments are INLINED,
+# bound names are numbered in order of appearance — renaming or hoisting a temporary does not change the generated text.
+# ==========================================================================================
+IRF_FIELDS = {
+    "center": ("rats", "irf.center"), "width": ("rats", "irf.width"), "scale": ("orats", "irf.scale"),
+    "shift": ("orats", "irf.shift"), "normalize": ("bool", "irf.normalize"), "backsweep": ("bool", "irf.backsweep"),
+    "backsweep_period": ("orat", "irf.backsweepPeriod"), "dispersion_center": ("orat", "irf.dispersionCenter"),
+    "center_dispersion_coefficients": ("rats", "irf.centerDisp"), "width_dispersion_coefficients": ("rats", "irf.widthDisp"),
+    "model_dispersion_with_wavenumber": ("bool", "irf.wavenumber"), "label": ("str", '""'),
+}
+INNER = {"orats": "rats", "orat": "rat", "onat": "nat"}
+RAISES = [("len(centers)", "lenMismatch"), ("len(scales)", "scaleMismatch"), ("No shift parameter", "noShift"),
+          ("No dispersion center", "noDispersionCenter"), ("Non-finite", "nonFiniteMatrix")]
+
+
+def same_ast(a, b) -> bool:
+    return ast.dump(a) == ast.dump(b)
+
+
+class Ctx:
+    """pending binds of one statement, in evaluation order"""
+
+    def __init__(self, tr, bind_fn="bindE"):
+        self.tr = tr
+        self.binds = []
+        self.bind_fn = bind_fn
+
+    def bind(self, kind, eff) -> tuple:
+        v = self.tr.fresh()
+        self.binds.append((v, eff))
+        return kind, v
+
+    def wrap(self, body: str) -> str:
+        for v, eff in reversed(self.binds):
+            body = f"{self.bind_fn} {eff} (fun {v} =>\n{body})"
+        return body
+
+
+class MethodTranslator:
+    def __init__(self, self_name="self", self_prefix=None):
+        self.n = 0
+        self.self_name = self_name
+        self.self_prefix = self_prefix or self_name       # dotted prefix denoting the IRF item
+
+    def fresh(self) -> str:
+        self.n += 1
+        return f"v{self.n}"
+
+    # -- helpers --------------------------------------------------------------------------------------
+    def field(self, e, env):
+        """(kind, lean) when `e` is `<item>.<field>`"""
+        d = dotted(e)
+        if d and d.startswith(self.self_prefix + ".") and d[len(self.self_prefix) + 1:] in IRF_FIELDS:
+            f = d[len(self.self_prefix) + 1:]
+            return env.get(("narrow", f)) or IRF_FIELDS[f]
+        return None
+
+    def as_rat(self, kv) -> str:
+        k, v = kv
+        if k == "rat":
+            return v
+        if k == "lit":
+            return f"({rat_of(v)} : Rat)"
+        raise Untranslatable(f"a {k} is used as a number")
+
+    def as_nat(self, kv, ctx) -> str:
+        k, v = kv
+        if k == "nat":
+            return v
+        if k == "lit" and isinstance(v, int) and v >= 0:
+            return str(v)
+        if k == "onat":
+            return ctx.bind("nat", f"(needIndex {v})")[1]
+        raise Untranslatable(f"a {k} is used as an index / count")
+
+    def none_test(self, t):
+        """(field, positive) for `<item>.<f> is not None` / `is None`"""
+        if isinstance(t, ast.Compare) and len(t.ops) == 1 and isinstance(t.comparators[0], ast.Constant) \
+                and t.comparators[0].value is None and isinstance(t.ops[0], (ast.Is, ast.IsNot)):
+            d = dotted(t.left)
+            if d and d.startswith(self.self_prefix + "."):
+                f = d[len(self.self_prefix) + 1:]
+                if IRF_FIELDS.get(f, ("",))[0] in INNER:
+                    return f, isinstance(t.ops[0], ast.IsNot)
+        return None
+
+    # -- expressions -----------------------------------------------------------------------------------
+    def expr(self, e, env, ctx):
+        f = self.field(e, env)
+        if f is not None:
+            return f
+        if isinstance(e, ast.Constant):
+            if isinstance(e.value, bool):
+                return "bool", "true" if e.value else "false"
+            if isinstance(e.value, (int, float)):
+                rat_of(e.value)
+                return "lit", e.value
+            if isinstance(e.value, str):
+                return "str", '""'
+            raise Untranslatable(f"constant `{e.value!r}`")
+        if isinstance(e, ast.Name):
+            if e.id in env:
+                return env[e.id]
+            raise Untranslatable(f"unbound name `{e.id}`")
+        if isinstance(e, ast.Attribute) and e.attr in ("value", "data", "values"):
+            k, v = self.expr(e.value, env, ctx)
+            if k in ("rat", "rats", "nums"):
+                return k, v
+            if k == "orat" and e.attr == "value":
+                return ctx.bind("rat", f"(optValue {v})")
+            raise Untranslatable(f"`.{e.attr}` of a {k}")
+        if isinstance(e, ast.IfExp):
+            return self.ifexp(e, env, ctx)
+        if isinstance(e, ast.Call):
+            return self.call(e, env, ctx)
+        if isinstance(e, ast.ListComp):
+            return self.listcomp(e, env, ctx)
+        if isinstance(e, ast.Subscript):
+            k, v = self.expr(e.value, env, ctx)
+            if k != "rats":
+                raise Untranslatable(f"subscript of a {k}")
+            i = self.as_nat(self.expr(e.slice, env, ctx), ctx)
+            return ctx.bind("rat", f"(listGet {v} {i})")
+        if isinstance(e, ast.BinOp):
+            op = {ast.Add: "+", ast.Sub: "-", ast.Mult: "*"}.get(type(e.op))
+            a, b = self.expr(e.left, env, ctx), self.expr(e.right, env, ctx)
+            if op and a[0] in ("rat", "lit") and b[0] in ("rat", "lit"):
+                return "rat", f"({self.as_rat(a)} {op} {self.as_rat(b)})"
+            if op and a[0] in ("nat",) and b[0] in ("nat", "lit") and op in "+*":
+                return "nat", f"({self.as_nat(a, ctx)} {op} {self.as_nat(b, ctx)})"
+            raise Untranslatable(f"`{ast.unparse(e)[:50]}` on {a[0]} and {b[0]}")
+        if isinstance(e, (ast.Compare, ast.BoolOp)) or (isinstance(e, ast.UnaryOp) and isinstance(e.op, ast.Not)):
+            return "bool", self.cond(e, env, ctx)
+        if isinstance(e, ast.JoinedStr):
+            for part in e.values:
+                if isinstance(part, ast.FormattedValue):
+                    self.expr(part.value, env, ctx)          # evaluated for its exceptions
+            return "str", '""'
+        raise Untranslatable(f"expression `{ast.unparse(e)[:60]}`")
+
+    def cond(self, e, env, ctx) -> str:
+        if isinstance(e, ast.BoolOp):
+            # `and` / `or` short-circuit: an operand that may raise must not be hoisted over the ones before it
+            parts = [self.cond(e.values[0], env, ctx)]
+            for v in e.values[1:]:
+                sub = Ctx(self)
+                parts.append(self.cond(v, env, sub))
+                if sub.binds:
+                    raise Untranslatable("an operand of and / or that may raise")
+            return "(" + (" && " if isinstance(e.op, ast.And) else " || ").join(parts) + ")"
+        if isinstance(e, ast.UnaryOp) and isinstance(e.op, ast.Not):
+            return f"(!{self.cond(e.operand, env, ctx)})"
+        nt = self.none_test(e)
+        if nt is not None:
+            kind, lean = IRF_FIELDS[nt[0]]
+            return f"{lean}.isSome" if nt[1] else f"{lean}.isNone"
+        if isinstance(e, ast.Compare) and len(e.ops) == 1:
+            a, b = self.expr(e.left, env, ctx), self.expr(e.comparators[0], env, ctx)
+            op = type(e.ops[0])
+            if {a[0], b[0]} <= {"nat", "onat", "lit"} and ("nat" in (a[0], b[0]) or "onat" in (a[0], b[0])):
+                x, y = self.as_nat(a, ctx), self.as_nat(b, ctx)
+            elif {a[0], b[0]} <= {"rat", "lit"} and "rat" in (a[0], b[0]):
+                x, y = self.as_rat(a), self.as_rat(b)
+            else:
+                raise Untranslatable(f"comparison of a {a[0]} with a {b[0]}")
+            if op is ast.Eq:
+                return f"({x} == {y})"
+            if op is ast.NotEq:
+                return f"({x} != {y})"
+            if op is ast.Lt:
+                return f"(decide ({x} < {y}))"
+            if op is ast.LtE:
+                return f"(decide ({x} ≤ {y}))"
+            if op is ast.Gt:
+                return f"(decide ({y} < {x}))"
+            if op is ast.GtE:
+                return f"(decide ({y} ≤ {x}))"
+            raise Untranslatable(f"comparison `{ast.unparse(e)}`")
+        k, v = self.expr(e, env, ctx)
+        if k == "bool":
+            return v
+        if k in ("orat", "orats"):          # truthiness of an optional attribute (a Parameter object is always true)
+            return f"{v}.isSome"
+        raise Untranslatable(f"a {k} is used as a condition")
+
+    def branch(self, e, env):
+        """an expression in its own context: (kind, value, binds)"""
+        sub = Ctx(self)
+        kv = self.expr(e, env, sub)
+        return kv, sub
+
+    def pure_or_eff(self, kv, sub, kind):
+        """the branch as an `Except` expression"""
+        val = self.coerce(kv, kind)
+        return sub.wrap(f".ok {val}")
+
+    def coerce(self, kv, kind) -> str:
+        if kind == "rat":
+            return self.as_rat(kv)
+        if kv[0] != kind:
+            raise Untranslatable(f"a {kv[0]} where a {kind} is expected")
+        return kv[1]
+
+    def join_kind(self, a, b) -> str:
+        if a[0] == b[0] and a[0] != "lit":
+            return a[0]
+        if {a[0], b[0]} <= {"rat", "lit"}:
+            return "rat"
+        raise Untranslatable(f"the branches give a {a[0]} and a {b[0]}")
+
+    def ifexp(self, e, env, ctx):
+        # `x if isinstance(x, list) else [x]`: a single Parameter is a list of one
+        t = e.test
+        if isinstance(t, ast.Call) and dotted(t.func) == "isinstance" and len(t.args) == 2 and dotted(t.args[1]) == "list" \
+                and same_ast(t.args[0], e.body) and isinstance(e.orelse, ast.List) and len(e.orelse.elts) == 1 \
+                and same_ast(e.orelse.elts[0], e.body):
+            k, v = self.expr(e.body, env, ctx)
+            if k != "rats":
+                raise Untranslatable(f"list normalisation of a {k}")
+            return k, v
+        nt = self.none_test(t)
+        if nt is not None:
+            f, positive = nt
+            okind, olean = IRF_FIELDS[f]
+            x = self.fresh()
+            env_some = dict(env)
+            env_some[("narrow", f)] = (INNER[okind], x)
+            some_e, none_e = (e.body, e.orelse) if positive else (e.orelse, e.body)
+            (a, sa), (b, sb) = self.branch(some_e, env_some), self.branch(none_e, env)
+            kind = self.join_kind(a, b)
+            if sa.binds or sb.binds:
+                return ctx.bind(kind, f"(match {olean} with\n| some {x} => {self.pure_or_eff(a, sa, kind)}\n"
+                                      f"| none => {self.pure_or_eff(b, sb, kind)})")
+            return kind, f"(match {olean} with | some {x} => {self.coerce(a, kind)} | none => {self.coerce(b, kind)})"
+        c = self.cond(t, env, ctx)
+        (a, sa), (b, sb) = self.branch(e.body, env), self.branch(e.orelse, env)
+        kind = self.join_kind(a, b)
+        if sa.binds or sb.binds:
+            return ctx.bind(kind, f"(if {c} then {self.pure_or_eff(a, sa, kind)} else {self.pure_or_eff(b, sb, kind)})")
+        return kind, f"(if {c} then {self.coerce(a, kind)} else {self.coerce(b, kind)})"
+
+    def call(self, e, env, ctx):
+        f = dotted(e.func)
+        if e.keywords:
+            raise Untranslatable(f"keyword arguments in `{ast.unparse(e)[:50]}`")
+        if f in ("np.asarray", "np.array", "numpy.asarray", "numpy.array") and len(e.args) == 1:
+            k, v = self.expr(e.args[0], env, ctx)
+            if k not in ("rats", "ratss"):
+                raise Untranslatable(f"np.asarray of a {k}")
+            return k, v
+        if f == "len" and len(e.args) == 1:
+            k, v = self.expr(e.args[0], env, ctx)
+            if k not in ("rats", "ratss"):
+                raise Untranslatable(f"len of a {k}")
+            return "nat", f"{v}.length"
+        if f in ("min", "max") and len(e.args) == 2:
+            a, b = (self.as_nat(self.expr(x, env, ctx), ctx) for x in e.args)
+            return "nat", f"({f} {a} {b})"
+        raise Untranslatable(f"call `{ast.unparse(e)[:60]}`")
+
+    def listcomp(self, e, env, ctx):
+        if len(e.generators) != 1 or e.generators[0].ifs or e.generators[0].is_async \
+                or not isinstance(e.generators[0].target, ast.Name):
+            raise Untranslatable(f"comprehension `{ast.unparse(e)[:60]}`")
+        g = e.generators[0]
+        var = g.target.id
+        uses_var = any(isinstance(n, ast.Name) and n.id == var for n in ast.walk(e.elt))
+        if isinstance(g.iter, ast.Call) and dotted(g.iter.func) == "range" and len(g.iter.args) == 1 and not g.iter.keywords:
+            n = self.as_nat(self.expr(g.iter.args[0], env, ctx), ctx)
+            if uses_var:
+                raise Untranslatable("a comprehension over range that uses its variable")
+            kv, sub = self.branch(e.elt, env)
+            x = self.as_rat(kv)
+            if sub.binds:       # the element expression is evaluated once per element: not at all for n = 0
+                return ctx.bind("rats", f"(if {n} = 0 then .ok [] else {sub.wrap(f'.ok (List.replicate {n} {x})')})")
+            return "rats", f"(List.replicate {n} {x})"
+        k, it = self.expr(g.iter, env, ctx)
+        if k != "rats":
+            raise Untranslatable(f"comprehension over a {k}")
+        if isinstance(e.elt, ast.Attribute) and e.elt.attr == "value" and isinstance(e.elt.value, ast.Name) and e.elt.value.id == var:
+            return "rats", it                                   # [p.value for p in ps]
+        x = self.fresh()
+        env2 = dict(env)
+        env2[var] = ("rat", x)
+        kv, sub = self.branch(e.elt, env2)
+        val = self.as_rat(kv)
+        if sub.binds:
+            if any(x in eff for _, eff in sub.binds):
+                raise Untranslatable("an element expression that may raise depending on the element")
+            return ctx.bind("rats", f"(if {it}.isEmpty then .ok [] else {sub.wrap(f'.ok ({it}.map (fun {x} => {val}))')})")
+        return "rats", f"({it}.map (fun {x} => {val}))"
+
+    # -- statements ------------------------------------------------------------------------------------
+    def assigned(self, stmts):
+        out = []
+        for st in stmts:
+            for n in ast.walk(st):
+                if isinstance(n, (ast.Assign, ast.AugAssign, ast.AnnAssign)):
+                    for t in (n.targets if isinstance(n, ast.Assign) else [n.target]):
+                        for x in ast.walk(t):
+                            if isinstance(x, ast.Name) and isinstance(x.ctx, ast.Store) and x.id not in out:
+                                out.append(x.id)
+        return out
+
+    def raise_(self, st, env):
+        ctx = Ctx(self)
+        exc = st.exc
+        if not (isinstance(exc, ast.Call) and dotted(exc.func) in ("ModelError", "ValueError") and len(exc.args) == 1):
+            raise Untranslatable(f"`{ast.unparse(st)[:60]}`")
+        msg = exc.args[0]
+        text = ""
+        if isinstance(msg, ast.JoinedStr):
+            text = "".join(p.value for p in msg.values if isinstance(p, ast.Constant) and isinstance(p.value, str))
+        elif isinstance(msg, ast.Constant) and isinstance(msg.value, str):
+            text = msg.value
+        self.expr(msg, env, ctx)
+        for key, ctor in RAISES:
+            if key in text:
+                return ctx.wrap(f".error .{ctor}")
+        raise Untranslatable(f"an exception the harness has no class for: `{text[:40]}`")
+
+    def block(self, stmts, env, final, ret_kinds=None):
+        """statements -> an `Except IrfError _` expression; `final(env)` is what follows the last statement"""
+        stmts = [st for st in stmts if not (isinstance(st, ast.Expr) and isinstance(st.value, ast.Constant))
+                 and not isinstance(st, ast.Pass)]
+        if not stmts:
+            return final(env)
+        st, rest = stmts[0], stmts[1:]
+        if isinstance(st, ast.Raise):
+            return self.raise_(st, env)
+        if isinstance(st, ast.Return):
+            if ret_kinds is None or st.value is None:
+                raise Untranslatable("return")
+            return self.ret(st.value, env, ret_kinds)
+        if isinstance(st, ast.Assign) and len(st.targets) == 1 and isinstance(st.targets[0], ast.Name):
+            ctx = Ctx(self)
+            kv = self.expr(st.value, env, ctx)
+            env2 = dict(env)
+            env2[st.targets[0].id] = kv
+            return ctx.wrap(self.block(rest, env2, final, ret_kinds))
+        if isinstance(st, ast.If):
+            return self.if_(st, rest, env, final, ret_kinds)
+        raise Untranslatable(f"statement `{ast.unparse(st)[:60]}`")
+
+    def if_(self, st, rest, env, final, ret_kinds):
+        names_a, names_b = self.assigned(st.body), self.assigned(st.orelse)
+        merged = [n for n in dict.fromkeys(names_a + names_b) if n in env or (n in names_a and n in names_b)]
+        kinds = {}
+
+        def tail(env_b):
+            vals = []
+            for n in merged:
+                kv = env_b[n]
+                kinds.setdefault(n, []).append(kv)
+                vals.append(kv)
+            return vals
+
+        def render(body, env_b):
+            got = []
+
+            def fin(e2):
+                got.append(tail(e2))
+                return "\0"          # placeholder, the values are rendered once both branches are known
+
+            txt = self.block(body, env_b, fin)
+            return txt, got
+
+        nt = self.none_test(st.test)
+        ctx = Ctx(self)
+        if nt is not None:
+            f, positive = nt
+            okind, olean = IRF_FIELDS[f]
+            x = self.fresh()
+            env_some = dict(env)
+            env_some[("narrow", f)] = (INNER[okind], x)
+            some_b, none_b = (st.body, st.orelse) if positive else (st.orelse, st.body)
+            (ta, ga), (tb, gb) = render(some_b, env_some), render(none_b, env)
+            head = lambda a, b: f"(match {olean} with\n| some {x} =>\n{a}\n| none =>\n{b})"  # noqa: E731
+        else:
+            c = self.cond(st.test, env, ctx)
+            (ta, ga), (tb, gb) = render(st.body, env), render(st.orelse, env)
+            head = lambda a, b: f"(if {c} then\n{a}\nelse\n{b})"  # noqa: E731
+        out_kinds = []
+        for i, n in enumerate(merged):
+            ks = [g[0][i] for g in (ga, gb) if g]
+            k = ks[0]
+            for k2 in ks[1:]:
+                k = (self.join_kind(k, k2), None)
+            out_kinds.append(k[0] if k[0] != "lit" else "rat")
+
+        def fill(txt, got):
+            if not got:
+                return txt
+            vals = [self.coerce(kv, k) for kv, k in zip(got[0], out_kinds)]
+            return txt.replace("\0", ".ok (" + ", ".join(vals) + ")" if vals else ".ok ()")
+
+        env2 = dict(env)
+        news = []
+        for n, k in zip(merged, out_kinds):
+            v = self.fresh()
+            news.append(v)
+            env2[n] = (k, v)
+        for n in set(names_a + names_b) - set(merged):
+            env2.pop(n, None)
+        pat = "(_ : Unit)" if not news else news[0] if len(news) == 1 else "(" + ", ".join(news) + ")"
+        body = self.block(rest, env2, final, ret_kinds)
+        return ctx.wrap(f"bindE {head(fill(ta, ga), fill(tb, gb))} (fun {pat} =>\n{body})")
+
+    def ret(self, value, env, ret_kinds):
+        elts = value.elts if isinstance(value, ast.Tuple) else [value]
+        if len(elts) != len(ret_kinds):
+            raise Untranslatable(f"{len(elts)} values are returned, {len(ret_kinds)} are expected")
+        ctx = Ctx(self)
+        vals = [self.coerce(self.expr(x, env, ctx), k) for x, k in zip(elts, ret_kinds)]
+        return ctx.wrap(".ok ⟨" + ", ".join(vals) + "⟩")
+
+
+def method_of(mod: Module, cls: str, name: str) -> ast.FunctionDef:
+    c = mod.classes.get(cls)
+    if c is None:
+        raise Untranslatable(f"class `{cls}` not found")
+    for st in c.body:
+        if isinstance(st, ast.FunctionDef) and st.name == name:
+            return st
+    raise Untranslatable(f"`{cls}.{name}` not found")
+
+
+def arg_names(fn) -> list:
+    a = fn.args
+    if a.vararg or a.kwonlyargs or a.posonlyargs or a.defaults:
+        raise Untranslatable("signature with defaults / varargs")
+    return [x.arg for x in a.args]
+
+
+def tr_base_parameter(mod: Module):
+    fn = method_of(mod, "IrfMultiGaussian", "parameter")
+    if arg_names(fn) != ["self", "global_index", "global_axis"] or fn.args.kwarg:
+        raise Untranslatable(f"signature changed: {arg_names(fn)}")
+    tr = MethodTranslator()
+    env = {"global_index": ("onat", "global_index"), "global_axis": ("rats", "global_axis")}
+    body = tr.block(fn.body, env, lambda _e: (_ for _ in ()).throw(Untranslatable("the function ends without a return")),
+                    ret_kinds=["rats", "rats", "rats", "rat", "bool", "rat"])
+    return fn.lineno, body
+
+
+# -- Irf.calculate: `sum(<elementwise expression> for c, w, s in zip(centers, widths, scales))` ------------------------------
+class NumExpr:
+    """an elementwise numpy expression over the model axis -> one element, in the abstract number class"""
+
+    def __init__(self, names):
+        self.names = names          # python name -> lean term of type α
+
+    def num(self, e) -> str:
+        if isinstance(e, ast.Constant) and isinstance(e.value, (int, float)) and not isinstance(e.value, bool):
+            return f"(Num.ofRat {rat_of(e.value)})"
+        if isinstance(e, ast.Name) and e.id in self.names:
+            return self.names[e.id]
+        if isinstance(e, ast.BinOp):
+            op = {ast.Add: "add", ast.Sub: "sub", ast.Mult: "mul", ast.Div: "div"}.get(type(e.op))
+            if op:
+                return f"(Num.{op} {self.num(e.left)} {self.num(e.right)})"
+            if isinstance(e.op, ast.Pow) and isinstance(e.right, ast.Constant) and e.right.value in (2, 2.0) \
+                    and not isinstance(e.right.value, bool):
+                x = self.num(e.left)
+                return f"(Num.mul {x} {x})"
+            raise Untranslatable(f"operator in `{ast.unparse(e)[:40]}`")
+        if isinstance(e, ast.UnaryOp) and isinstance(e.op, ast.USub):
+            return f"(Num.neg {self.num(e.operand)})"
+        if isinstance(e, ast.Call) and dotted(e.func) in ("np.exp", "numpy.exp") and len(e.args) == 1 and not e.keywords:
+            return f"(Num.exp {self.num(e.args[0])})"
+        raise Untranslatable(f"expression `{ast.unparse(e)[:60]}`")
+
+
+PARAM_RESULT = ["centers", "widths", "scales", "shift", "backsweep", "period"]
+
+
+def tr_calculate(mod: Module):
+    fn = method_of(mod, "IrfMultiGaussian", "calculate")
+    if arg_names(fn) != ["self", "index", "global_axis", "model_axis"]:
+        raise Untranslatable(f"signature changed: {arg_names(fn)}")
+    body = [st for st in fn.body if not (isinstance(st, ast.Expr) and isinstance(st.value, ast.Constant))]
+    if len(body) != 2:
+        raise Untranslatable("`calculate` is not `<tuple> = self.parameter(..); return sum(..)`")
+    a, r = body
+    if not (isinstance(a, ast.Assign) and len(a.targets) == 1 and isinstance(a.targets[0], ast.Tuple)
+            and len(a.targets[0].elts) == 6 and all(isinstance(x, ast.Name) for x in a.targets[0].elts)
+            and isinstance(a.value, ast.Call) and dotted(a.value.func) == "self.parameter" and not a.value.keywords
+            and [dotted(x) for x in a.value.args] == ["index", "global_axis"]):
+        raise Untranslatable(f"`{ast.unparse(a)[:60]}`")
+    fields = {x.id: f"p.{f}" for x, f in zip(a.targets[0].elts, PARAM_RESULT) if x.id != "_"}
+    if not (isinstance(r, ast.Return) and isinstance(r.value, ast.Call) and dotted(r.value.func) == "sum"
+            and len(r.value.args) == 1 and isinstance(r.value.args[0], ast.GeneratorExp)):
+        raise Untranslatable("`calculate` does not return `sum(<generator>)`")
+    g = r.value.args[0]
+    if len(g.generators) != 1 or g.generators[0].ifs:
+        raise Untranslatable("generator of `calculate`")
+    gen = g.generators[0]
+    if not (isinstance(gen.iter, ast.Call) and dotted(gen.iter.func) == "zip" and len(gen.iter.args) == 3
+            and isinstance(gen.target, ast.Tuple) and len(gen.target.elts) == 3
+            and all(isinstance(x, ast.Name) for x in gen.target.elts)):
+        raise Untranslatable(f"`{ast.unparse(gen.iter)[:40]}` is not a zip of three arrays")
+    arrays = []
+    for x in gen.iter.args:
+        d = dotted(x)
+        if d in fields and fields[d] in ("p.centers", "p.widths", "p.scales"):
+            arrays.append(fields[d])
+        elif isinstance(x, ast.BinOp) and isinstance(x.op, (ast.Sub, ast.Add)) and fields.get(dotted(x.left)) in \
+                ("p.centers", "p.widths", "p.scales") and fields.get(dotted(x.right)) == "p.shift":
+            f = "vecSubScalar" if isinstance(x.op, ast.Sub) else "vecAddScalar"      # numpy broadcasting of the scalar shift
+            arrays.append(f"{f} {fields[dotted(x.left)]} p.shift")
+        else:
+            raise Untranslatable(f"zip over `{ast.unparse(x)[:30]}`")
+    names = {"model_axis": "(Num.ofRat t)"}
+    for x, proj in zip(gen.target.elts, ("g.1", "g.2.1", "g.2.2")):
+        names[x.id] = f"(Num.ofRat {proj})"
+    elt = NumExpr(names).num(g.elt)
+    return fn.lineno, (f"  bindE (parameter irf (some index) global_axis) (fun p =>\n"
+                       f"    .ok (model_axis.map (fun t => (({arrays[0]}).zip (({arrays[1]}).zip ({arrays[2]}))).foldl (fun acc g =>\n"
+                       f"      Num.add acc {elt}) (Num.ofRat 0))))")
+
+
+# -- IrfSpectralMultiGaussian.calculate_dispersion ----------------------------------------------------------------------------
+def tr_calculate_dispersion(mod: Module):
+    """`dispersion = []; for index, _ in enumerate(axis): center, .. = self.parameter(index, axis); dispersion.append(center);
+    return np.asarray(dispersion).T`"""
+    fn = method_of(mod, "IrfSpectralMultiGaussian", "calculate_dispersion")
+    if arg_names(fn) != ["self", "axis"]:
+        raise Untranslatable(f"signature changed: {arg_names(fn)}")
+    body = [st for st in fn.body if not (isinstance(st, ast.Expr) and isinstance(st.value, ast.Constant))]
+    if len(body) != 3:
+        raise Untranslatable("shape of `calculate_dispersion`")
+    init, loop, ret = body
+    if not (isinstance(init, ast.Assign) and isinstance(init.targets[0], ast.Name) and isinstance(init.value, ast.List)
+            and not init.value.elts):
+        raise Untranslatable(f"`{ast.unparse(init)[:40]}`")
+    acc = init.targets[0].id
+    if not (isinstance(loop, ast.For) and not loop.orelse and isinstance(loop.iter, ast.Call)):
+        raise Untranslatable("loop of `calculate_dispersion`")
+    f = dotted(loop.iter.func)
+    if f == "enumerate" and [dotted(x) for x in loop.iter.args] == ["axis"] and isinstance(loop.target, ast.Tuple) \
+            and len(loop.target.elts) == 2 and isinstance(loop.target.elts[0], ast.Name):
+        iv = loop.target.elts[0].id
+    elif f == "range" and len(loop.iter.args) == 1 and ast.unparse(loop.iter.args[0]) in ("len(axis)", "axis.size") \
+            and isinstance(loop.target, ast.Name):
+        iv = loop.target.id
+    else:
+        raise Untranslatable(f"loop over `{ast.unparse(loop.iter)[:40]}`")
+    if len(loop.body) != 2:
+        raise Untranslatable("loop body of `calculate_dispersion`")
+    a, ap = loop.body
+    if not (isinstance(a, ast.Assign) and isinstance(a.targets[0], ast.Tuple) and len(a.targets[0].elts) == 6
+            and all(isinstance(x, ast.Name) for x in a.targets[0].elts) and isinstance(a.value, ast.Call)
+            and dotted(a.value.func) == "self.parameter" and not a.value.keywords
+            and [dotted(x) for x in a.value.args] == [iv, "axis"]):
+        raise Untranslatable(f"`{ast.unparse(a)[:60]}`")
+    fields = {x.id: f for x, f in zip(a.targets[0].elts, PARAM_RESULT) if x.id != "_"}
+    if not (isinstance(ap, ast.Expr) and isinstance(ap.value, ast.Call) and dotted(ap.value.func) == f"{acc}.append"
+            and len(ap.value.args) == 1 and dotted(ap.value.args[0]) in fields
+            and fields[dotted(ap.value.args[0])] in ("centers", "widths", "scales")):
+        raise Untranslatable(f"`{ast.unparse(ap)[:60]}`")
+    what = fields[dotted(ap.value.args[0])]
+    if not (isinstance(ret, ast.Return) and ast.unparse(ret.value) in (f"np.asarray({acc}).T", f"np.array({acc}).T",
+                                                                        f"np.transpose(np.asarray({acc}))")):
+        raise Untranslatable(f"`{ast.unparse(ret)[:60]}`")
+    return fn.lineno, (f"  bindE (forRangeM axis.length ([] : List (List Rat)) (fun {ident(iv)} st =>\n"
+                       f"      bindE (spectralParameter irf (some {ident(iv)}) axis) (fun p => .ok (st ++ [p.{what}])))) (fun rows =>\n"
+                       f"    .ok (transposeRows rows))")
+
+
+# -- util.index_dependent ---------------------------------------------------------------------------------------------------
+def tr_index_dependent(mod: Module):
+    fn = mod.funcs.get("index_dependent")
+    if fn is None or arg_names(fn) != ["dataset_model"]:
+        raise Untranslatable("`index_dependent` not found / signature changed")
+    body = [st for st in fn.body if not (isinstance(st, ast.Expr) and isinstance(st.value, ast.Constant))]
+    if len(body) != 1 or not isinstance(body[0], ast.Return):
+        raise Untranslatable("`index_dependent` is not a single return")
+    v = body[0].value
+    if not (isinstance(v, ast.BoolOp) and isinstance(v.op, ast.And) and len(v.values) == 2
+            and ast.unparse(v.values[0]) == "isinstance(dataset_model.irf, IrfMultiGaussian)"
+            and ast.unparse(v.values[1]) == "dataset_model.irf.is_index_dependent()"):
+        raise Untranslatable(f"`{ast.unparse(v)[:70]}`")
+    return fn.lineno, "  match irf with\n  | some i => isIndexDependent i\n  | none => false"
+
+
+# -- util.calculate_matrix --------------------------------------------------------------------------------------------------
+class CalcMatrix:
+    """`rates`, the compartments and the A-matrix come from the megacomplex (property C04): parameters of the generated function.
+    Translated: the shape expression and np.zeros, the two glue calls under their conditions, the finiteness check with its raise,
+    the product with the A-matrix, in source order."""
+
+    SIZES = {"global_axis.size": "global_axis.length", "model_axis.size": "model_axis.length", "rates.size": "rates.length",
+             "len(global_axis)": "global_axis.length", "len(model_axis)": "model_axis.length", "len(rates)": "rates.length"}
+
+    def __init__(self, mod):
+        self.mod = mod
+        self.env = {}
+
+    def cond(self, e) -> str:
+        if isinstance(e, ast.Call) and dotted(e.func) == "index_dependent" and [dotted(x) for x in e.args] == ["dataset_model"] \
+                and not e.keywords:
+            return "(index_dependent irf)"
+        if isinstance(e, ast.UnaryOp) and isinstance(e.op, ast.Not):
+            return f"(!{self.cond(e.operand)})"
+        if isinstance(e, ast.Call) and dotted(e.func) in ("np.all", "numpy.all") and len(e.args) == 1 and not e.keywords:
+            a = e.args[0]
+            if isinstance(a, ast.Call) and dotted(a.func) in ("np.isfinite", "numpy.isfinite") and len(a.args) == 1 \
+                    and dotted(a.args[0]) == "matrix" and self.env.get("matrix") == "matrix":
+                return "(Matrix.all isfinite matrix)"
+        raise Untranslatable(f"condition `{ast.unparse(e)[:60]}`")
+
+    def shape(self, e) -> str:
+        if isinstance(e, ast.Tuple):
+            dims = []
+            for x in e.elts:
+                s = self.SIZES.get(ast.unparse(x))
+                if s is None:
+                    raise Untranslatable(f"dimension `{ast.unparse(x)[:30]}`")
+                dims.append(s)
+            return "[" + ", ".join(dims) + "]"
+        if isinstance(e, ast.IfExp):
+            return f"(if {self.cond(e.test)} then {self.shape(e.body)} else {self.shape(e.orelse)})"
+        if isinstance(e, ast.Name) and self.env.get(e.id, "").startswith("shape:"):
+            return self.env[e.id][6:]
+        raise Untranslatable(f"shape `{ast.unparse(e)[:50]}`")
+
+    def glue_call(self, st) -> str:
+        if not (isinstance(st, ast.Expr) and isinstance(st.value, ast.Call) and not st.value.keywords):
+            raise Untranslatable(f"`{ast.unparse(st)[:60]}`")
+        c = st.value
+        f = dotted(c.func)
+        args = [dotted(x) for x in c.args]
+        if args != ["matrix", "rates", "global_axis", "model_axis", "dataset_model"] or self.env.get("matrix") != "matrix":
+            raise Untranslatable(f"arguments of `{ast.unparse(c)[:60]}`")
+        if f == "decay_matrix_implementation_index_dependent":
+            return "callDep matrix irf (fun m i => decay_matrix_implementation_index_dependent m rates global_axis model_axis i)"
+        if f == "decay_matrix_implementation_index_independent":
+            return "callIndep matrix (fun m => decay_matrix_implementation_index_independent m rates global_axis model_axis irf)"
+        raise Untranslatable(f"call `{f}`")
+
+    def stmts(self, body) -> str:
+        body = [st for st in body if not (isinstance(st, ast.Expr) and isinstance(st.value, ast.Constant))]
+        if not body:
+            raise Untranslatable("`calculate_matrix` ends without a return")
+        st, rest = body[0], body[1:]
+        if isinstance(st, ast.Assign) and len(st.targets) == 1 and isinstance(st.targets[0], ast.Name):
+            name, v = st.targets[0].id, st.value
+            src = ast.unparse(v)
+            # what the megacomplex provides (inputs of the generated function)
+            provided = {"compartments": "megacomplex.get_compartments(dataset_model)",
+                        "initial_concentration": "megacomplex.get_initial_concentration(dataset_model)",
+                        "k_matrix": "megacomplex.get_k_matrix()",
+                        "rates": "k_matrix.rates(compartments, initial_concentration)"}
+            if provided.get(name) == src:
+                self.env[name] = "input"
+                return self.stmts(rest)
+            if isinstance(v, (ast.Tuple, ast.IfExp)) and name != "matrix":
+                self.env[name] = "shape:" + self.shape(v)
+                return self.stmts(rest)
+            if name == "matrix" and isinstance(v, ast.Call) and dotted(v.func) in ("np.zeros", "numpy.zeros") and len(v.args) == 1 \
+                    and all(k.arg == "dtype" and ast.unparse(k.value) in ("np.float64", "float", "numpy.float64") for k in v.keywords):
+                if "matrix" in self.env:
+                    raise Untranslatable("`matrix` is allocated twice")
+                self.env["matrix"] = "matrix"
+                return f"  let matrix : Matrix α := zerosOfShape {self.shape(v.args[0])}\n" + self.stmts(rest)
+            if name == "matrix" and isinstance(v, ast.BinOp) and isinstance(v.op, ast.MatMult) and dotted(v.left) == "matrix" \
+                    and ast.unparse(v.right) == "megacomplex.get_a_matrix(dataset_model)" and self.env.get("matrix") == "matrix":
+                return "  let matrix := Matrix.matmul matrix a_matrix ncomp\n" + self.stmts(rest)
+            raise Untranslatable(f"assignment `{ast.unparse(st)[:60]}`")
+        if isinstance(st, ast.If):
+            c = self.cond(st.test)
+            if len(st.body) == 1 and isinstance(st.body[0], ast.Raise) and not st.orelse:
+                r = MethodTranslator().raise_(st.body[0], {"k_matrix": ("str", '""')}) if self.raise_ok(st.body[0]) else None
+                return f"  bindE (if {c} then {r} else .ok ()) (fun (_ : Unit) =>\n" + self.stmts(rest) + ")"
+            if len(st.body) == 1 and len(st.orelse) == 1:
+                a, b = self.glue_call(st.body[0]), self.glue_call(st.orelse[0])
+                return f"  bindE (if {c} then {a} else {b}) (fun matrix =>\n" + self.stmts(rest) + ")"
+            raise Untranslatable(f"`if {ast.unparse(st.test)[:40]}`")
+        if isinstance(st, ast.Return):
+            if rest or ast.unparse(st.value) != "(compartments, matrix)" or self.env.get("matrix") != "matrix":
+                raise Untranslatable(f"`{ast.unparse(st)[:50]}`")
+            return "  .ok matrix"
+        raise Untranslatable(f"statement `{ast.unparse(st)[:60]}`")
+
+    @staticmethod
+    def raise_ok(st) -> bool:
+        # the message interpolates the K-matrix (markdown): no exception of its own
+        exc = st.exc
+        if not (isinstance(exc, ast.Call) and len(exc.args) == 1 and isinstance(exc.args[0], (ast.JoinedStr, ast.Constant))):
+            raise Untranslatable(f"`{ast.unparse(st)[:60]}`")
+        if isinstance(exc.args[0], ast.JoinedStr):
+            exc.args[0].values = [p for p in exc.args[0].values if isinstance(p, ast.Constant)]
+        return True
+
+
+def tr_calculate_matrix(mod: Module):
+    fn = mod.funcs.get("calculate_matrix")
+    if fn is None:
+        raise Untranslatable("`calculate_matrix` not found")
+    a = fn.args
+    if [x.arg for x in a.args] != ["megacomplex", "dataset_model", "global_axis", "model_axis"] or a.vararg or a.defaults:
+        raise Untranslatable("signature changed")
+    return fn.lineno, CalcMatrix(mod).stmts(fn.body)
+
+
+# -- util.retrieve_irf ------------------------------------------------------------------------------------------------------
+class RetrieveIrf:
+    """`dataset[name] = (dims, value)` stores -> the fields of the result record, in source order.  Values: `irf.calculate(index=c,
+    global_axis=<global coordinate>, model_axis=<model coordinate>).data`, lists over the declared centres / widths / shifts,
+    `irf.calculate_dispersion(<spectral coordinate>)`, `.sel(irf_nr=c)` of an earlier variable."""
+
+    FIELDS = ["irf", "irf_center", "irf_width", "irf_shift", "irf_center_location", "center_dispersion_1"]
+
+    def __init__(self):
+        self.tr = MethodTranslator(self_name="irf", self_prefix="irf")
+        self.env = {}
+        self.stored = {}          # dataset variable -> (kind, lean, optional?)
+
+    def coord(self, e):
+        s = ast.unparse(e)
+        if s in ("dataset.coords[global_dimension].values", "dataset.coords['spectral'].values"):
+            return "global_axis"
+        if s == "dataset.coords[model_dimension].values" and self.env.get("model_dimension") == "model":
+            return "model_axis"
+        raise Untranslatable(f"coordinate `{s[:50]}`")
+
+    def value(self, name, e, ctx):
+        """(dims, kind, lean) of the right-hand side of `dataset[name] = ...`"""
+        dims = None
+        if isinstance(e, ast.Tuple) and len(e.elts) == 2:
+            dims, e = ast.unparse(e.elts[0]), e.elts[1]
+        # `("irf_nr", x) if len(x) > 1 else x[0]`: a 0-d value is a list of one
+        if isinstance(e, ast.IfExp) and isinstance(e.body, ast.Tuple) and len(e.body.elts) == 2 \
+                and ast.unparse(e.body.elts[0]) == "'irf_nr'" and isinstance(e.body.elts[1], ast.Name):
+            x = e.body.elts[1].id
+            if ast.unparse(e.test) == f"len({x}) > 1" and ast.unparse(e.orelse) == f"{x}[0]":
+                k, v = self.tr.expr(e.body.elts[1], self.env, ctx)
+                if k != "rats":
+                    raise Untranslatable(f"`{x}` is a {k}")
+                return "irf_nr", "rats", ctx.bind("rats", f"(liftIrf (scalarOrList {v}))")[1]
+        if isinstance(e, ast.Attribute) and e.attr == "data":
+            e = e.value
+        if isinstance(e, ast.Call) and dotted(e.func) == "irf.calculate" and not e.args:
+            kw = {k.arg: k.value for k in e.keywords}
+            if sorted(kw) != ["global_axis", "index", "model_axis"] or not isinstance(kw["index"], ast.Constant) \
+                    or not isinstance(kw["index"].value, int) or isinstance(kw["index"].value, bool) or kw["index"].value < 0:
+                raise Untranslatable(f"`{ast.unparse(e)[:60]}`")
+            if self.coord(kw["global_axis"]) != "global_axis" or self.coord(kw["model_axis"]) != "model_axis":
+                raise Untranslatable("coordinates handed to irf.calculate")
+            v = ctx.bind("nums", f"(liftIrf (irf_calculate irf {kw['index'].value} global_axis model_axis))")[1]
+            return dims, "nums", v
+        if isinstance(e, ast.Call) and dotted(e.func) == "irf.calculate_dispersion" and len(e.args) == 1 and not e.keywords:
+            if ast.unparse(e.args[0]) != "dataset.coords['spectral'].values":
+                raise Untranslatable(f"`{ast.unparse(e)[:60]}`")
+            v = ctx.bind("ratss", "(liftIrf (calculate_dispersion irf global_axis))")[1]
+            return dims, "ratss", v
+        if isinstance(e, ast.Call) and isinstance(e.func, ast.Attribute) and e.func.attr == "sel" and not e.args \
+                and len(e.keywords) == 1 and e.keywords[0].arg == "irf_nr" and isinstance(e.keywords[0].value, ast.Constant):
+            src = e.func.value
+            if isinstance(src, ast.Subscript) and dotted(src.value) == "dataset" and isinstance(src.slice, ast.Constant) \
+                    and src.slice.value in self.stored and self.stored[src.slice.value][0] == "ratss":
+                i = e.keywords[0].value.value
+                if not isinstance(i, int) or isinstance(i, bool) or i < 0:
+                    raise Untranslatable("irf_nr")
+                return "global", "rats", f"(({self.stored[src.slice.value][1]}).getD {i} [])"
+            raise Untranslatable(f"`{ast.unparse(e)[:60]}`")
+        sub = Ctx(self.tr)
+        k, v = self.tr.expr(e, self.env, sub)
+        if k != "rats":
+            raise Untranslatable(f"`dataset[{name!r}]` is a {k}")
+        if sub.binds:
+            lifted = Ctx(self.tr)
+            lifted.binds = sub.binds
+            v = ctx.bind("rats", "(liftIrf (" + lifted.wrap(f".ok {v}") + "))")[1]
+        return dims, "rats", v
+
+    def store(self, st, ctx):
+        t = st.targets[0]
+        if not (isinstance(t, ast.Subscript) and dotted(t.value) == "dataset" and isinstance(t.slice, ast.Constant)
+                and isinstance(t.slice.value, str)):
+            return None
+        name = t.slice.value
+        if name not in self.FIELDS or name in self.stored:
+            raise Untranslatable(f"dataset variable `{name}`")
+        dims, kind, v = self.value(name, st.value, ctx)
+        want = {"irf": ("model_dimension", "nums"), "irf_center": ("irf_nr", "rats"), "irf_width": ("irf_nr", "rats"),
+                "irf_shift": ("global_dimension", "rats"), "irf_center_location": ("('irf_nr', global_dimension)", "ratss"),
+                "center_dispersion_1": ("global", "rats")}[name]
+        if (dims, kind) != want:
+            raise Untranslatable(f"`dataset[{name!r}]` has dims {dims} and is a {kind}")
+        if name == "irf_shift":
+            v = ctx.bind("rats", f"(onGlobalDim global_axis {v})")[1]
+        if name == "irf_center_location":
+            v = ctx.bind("ratss", f"(onGlobalDimRows global_axis {v})")[1]
+        return name, kind, v
+
+    def cond(self, e, ctx) -> str:
+        if isinstance(e, ast.BoolOp) and isinstance(e.op, ast.And):
+            return "(" + " && ".join(self.cond(v, ctx) for v in e.values) + ")"
+        if ast.unparse(e) == "isinstance(irf, IrfSpectralMultiGaussian)":
+            return "irf.spectral"
+        return self.tr.cond(e, self.env, ctx)
+
+    def block(self, stmts, opt_names):
+        """-> text of an Except expression ending in the record; `opt_names`: variables stored under a condition"""
+        ctx = Ctx(self.tr, "bindR")
+        for st in stmts:
+            if isinstance(st, ast.Expr) and isinstance(st.value, ast.Constant):
+                continue
+            if isinstance(st, ast.Assign) and len(st.targets) == 1:
+                got = self.store(st, ctx)
+                if got is not None:
+                    self.stored[got[0]] = (got[1], got[2])
+                    continue
+                if isinstance(st.targets[0], ast.Name):
+                    n = st.targets[0].id
+                    if n == "irf" and ast.unparse(st.value) == "dataset_model.irf":
+                        continue
+                    if n == "model_dimension" and ast.unparse(st.value) == "get_dataset_model_model_dimension(dataset_model)":
+                        self.env[n] = "model"
+                        continue
+                    self.env[n] = self.tr.expr(st.value, self.env, ctx)
+                    continue
+            if isinstance(st, ast.If) and not st.orelse:
+                nt = self.tr.none_test(st.test)
+                before = dict(self.stored)
+                sub = Ctx(self.tr, "bindR")
+                if nt is not None and nt[1]:
+                    f = nt[0]
+                    x = self.tr.fresh()
+                    saved = dict(self.env)
+                    self.env[("narrow", f)] = (INNER[IRF_FIELDS[f][0]], x)
+                    inner = RetrieveIrf.inner_stores(self, st.body, sub)
+                    self.env = saved
+                    head = lambda a, b: f"(match {IRF_FIELDS[f][1]} with\n| some {x} => {a}\n| none => {b})"  # noqa: E731
+                else:
+                    c = self.cond(st.test, ctx)
+                    inner = RetrieveIrf.inner_stores(self, st.body, sub)
+                    head = lambda a, b: f"(if {c} then {a} else {b})"  # noqa: E731
+                names = [n for n in self.stored if n not in before]
+                vals = [self.stored[n] for n in names]
+                somes = ", ".join(f"some {v}" for _, v in vals)
+                nones = ", ".join("none" for _ in vals)
+                outs = [self.tr.fresh() for _ in names]
+                pat = outs[0] if len(outs) == 1 else "(" + ", ".join(outs) + ")"
+                eff = head(sub.wrap(f".ok ({somes})"), f".ok ({nones})")
+                ctx.binds.append((pat, eff))
+                for n, (k, _), o in zip(names, vals, outs):
+                    self.stored[n] = ("o" + k, o)
+                continue
+            raise Untranslatable(f"statement `{ast.unparse(st)[:60]}`")
+        missing = [n for n in self.FIELDS if n not in self.stored]
+        if missing:
+            raise Untranslatable(f"variables not stored: {missing}")
+        kinds = {n: self.stored[n][0] for n in self.FIELDS}
+        if kinds != {"irf": "nums", "irf_center": "rats", "irf_width": "rats", "irf_shift": "orats",
+                     "irf_center_location": "oratss", "center_dispersion_1": "orats"}:
+            raise Untranslatable(f"optional / unconditional variables changed: {kinds}")
+        rec = ".ok ⟨" + ", ".join(self.stored[n][1] for n in self.FIELDS) + "⟩"
+        return ctx.wrap(rec)
+
+    def inner_stores(self, body, sub):
+        for st in body:
+            got = self.store(st, sub) if isinstance(st, ast.Assign) and len(st.targets) == 1 else None
+            if got is None:
+                raise Untranslatable(f"statement `{ast.unparse(st)[:60]}` under a condition")
+            self.stored[got[0]] = (got[1], got[2])
+
+
+def tr_retrieve_irf(mod: Module):
+    fn = mod.funcs.get("retrieve_irf")
+    if fn is None or arg_names(fn) != ["dataset_model", "dataset", "global_dimension"]:
+        raise Untranslatable("`retrieve_irf` not found / signature changed")
+    body = [st for st in fn.body if not (isinstance(st, ast.Expr) and isinstance(st.value, ast.Constant))]
+    # the guard `if not isinstance(dataset_model.irf, IrfMultiGaussian) or "irf" in dataset: return` (the generated function is
+    # for a Gaussian IRF and a dataset without `irf`)
+    g = body[0] if body else None
+    if not (isinstance(g, ast.If) and not g.orelse and len(g.body) == 1 and isinstance(g.body[0], ast.Return) and g.body[0].value is None
+            and ast.unparse(g.test) == "not isinstance(dataset_model.irf, IrfMultiGaussian) or 'irf' in dataset"):
+        raise Untranslatable("guard of `retrieve_irf`")
+    r = RetrieveIrf()
+    txt = r.block(body[1:], None)
+    return fn.lineno, txt
+
+
+IRF_HEADER = """/-
+GENERATED by harness/props/_c05_translate.py (c05.generate) from the source of VERIF_REPO — do not edit.
+Method-level translation of irf.py (`IrfMultiGaussian.parameter`, `calculate`, `calculate_dispersion`) and of util.py
+(`index_dependent`, `calculate_matrix`, `retrieve_irf`).  Imported by the proofs of C05 only.
+-/
+import GlotaranModel.Generated.C05Fns
+set_option linter.unusedVariables false
+namespace Glotaran.C05.Gen
+open Glotaran.C05
+
+"""
+
+IRF_ITEMS = [
+    ("base_parameter", IRF_FILE, tr_base_parameter,
+     "def base_parameter (irf : Irf) (global_index : Option Nat) (global_axis : List Rat) : Except IrfError Params :="),
+    ("irf_calculate", IRF_FILE, tr_calculate,
+     "def irf_calculate {α : Type} [Num α] (irf : Irf) (index : Nat) (global_axis model_axis : List Rat) : Except IrfError (List α) :="),
+    ("calculate_dispersion", IRF_FILE, tr_calculate_dispersion,
+     "def calculate_dispersion (irf : Irf) (axis : List Rat) : Except IrfError (List (List Rat)) :="),
+    ("index_dependent", UTIL_FILE, tr_index_dependent,
+     "def index_dependent (irf : Option Irf) : Bool :="),
+    ("calculate_matrix", UTIL_FILE, tr_calculate_matrix,
+     "def calculate_matrix {α : Type} [NumOrd α] (isfinite : α → Bool) (irf : Option Irf) (rates global_axis model_axis : List Rat) "
+     "(a_matrix : List (List Rat)) (ncomp : Nat) : Except IrfError (Matrix α) :="),
+    ("retrieve_irf", UTIL_FILE, tr_retrieve_irf,
+     "def retrieve_irf {α : Type} [Num α] (irf : Irf) (global_axis model_axis : List Rat) : Except RetrieveError (IrfResult α) :="),
+]
+
+
+def render_irf(repo: Path):
+    mods = {f: Module(repo / f) for f in (IRF_FILE, UTIL_FILE)}
+    parts, table = [IRF_HEADER], []
+    for name, file, f, sig in IRF_ITEMS:
+        try:
+            line, body = f(mods[file])
+            status = "translated"
+        except Untranslatable as e:
+            line, status = "?", f"untranslatable: {e}"
+            body = ("  untranslatable " if name == "index_dependent" else "  .ok (untranslatable ") + lean_str(str(e)) + \
+                   ("" if name == "index_dependent" else ")")
+        except RecursionError:
+            line, status = "?", "untranslatable: expression too deep"
+            body = "  untranslatable \"expression too deep\"" if name == "index_dependent" else "  .ok (untranslatable \"expression too deep\")"
+        parts.append(f"/-- {file}:{line} `{name}` -/\n{sig}\n{body}\n\n")
+        table.append({"function": name, "file": file, "status": status})
+    parts.append("end Glotaran.C05.Gen\n")
+    return "".join(parts), table
